@@ -1,1 +1,589 @@
-fn main() {}
+//! C08 — file and pipe I/O matches the OS, identically on every driver (DESIGN.md §3 C08).
+//!
+//! Three-way differential: every generated program runs (a) through a synchronous reference
+//! interpreter (std::fs + libc), (b) through compio-fs on a runtime with the io_uring driver and
+//! (c) on a runtime with the polling driver (file operations take the thread-pool fallback), each in
+//! its own sibling directory.  Per step the result (count / errno), the returned buffers (length and
+//! whole capacity region) and metadata are compared, at the end the three directory trees.
+mod bufs;
+mod cexec;
+mod prog;
+mod refexec;
+
+use std::{
+    collections::BTreeMap,
+    os::unix::fs::{MetadataExt, PermissionsExt},
+    path::{Path, PathBuf},
+    sync::atomic::{AtomicU64, Ordering},
+};
+
+use bufs::*;
+use compio_driver::DriverType;
+use prog::*;
+use vcore::{
+    proptest::{self, collection::vec, prelude::*},
+    Outcome, Part, Session,
+};
+
+// ------------------------------------------------------------------------------------------------
+// final state of a directory tree
+
+#[derive(Debug, PartialEq, Clone)]
+struct Entry {
+    ftype: String,
+    mode: u32,
+    nlink: u64,
+    /// file length (0 for directories)
+    len: u64,
+    /// file bytes (first MiB) or symlink target
+    content: Vec<u8>,
+}
+
+fn walk(root: &Path, rel: &Path, out: &mut BTreeMap<String, Entry>) -> std::io::Result<()> {
+    let mut names: Vec<_> = std::fs::read_dir(root.join(rel))?.collect::<Result<Vec<_>, _>>()?;
+    names.sort_by_key(|e| e.file_name());
+    for e in names {
+        let relp = rel.join(e.file_name());
+        let full = root.join(&relp);
+        let m = std::fs::symlink_metadata(&full)?;
+        let ft = m.file_type();
+        let content = if ft.is_symlink() {
+            use std::os::unix::ffi::OsStrExt;
+            std::fs::read_link(&full)?.as_os_str().as_bytes().to_vec()
+        } else if ft.is_file() {
+            use std::io::Read;
+            let mut v = vec![];
+            std::fs::File::open(&full)?.take(1 << 20).read_to_end(&mut v)?;
+            v
+        } else {
+            vec![]
+        };
+        out.insert(
+            relp.to_string_lossy().into_owned(),
+            Entry { ftype: ftype_name(&ft).into(), mode: m.mode() & 0o7777, nlink: m.nlink(), len: if ft.is_dir() { 0 } else { m.len() }, content },
+        );
+        if ft.is_dir() {
+            walk(root, &relp, out)?;
+        }
+    }
+    Ok(())
+}
+
+/// make everything traversable again (a non-root run could have locked itself out), then delete
+fn cleanup(base: &Path) {
+    fn unlock(p: &Path) {
+        if let Ok(m) = std::fs::symlink_metadata(p) {
+            if m.file_type().is_dir() {
+                let _ = std::fs::set_permissions(p, std::fs::Permissions::from_mode(0o755));
+                if let Ok(rd) = std::fs::read_dir(p) {
+                    for e in rd.flatten() {
+                        unlock(&e.path());
+                    }
+                }
+            }
+        }
+    }
+    unlock(base);
+    let _ = std::fs::remove_dir_all(base);
+}
+
+struct CaseDir(PathBuf);
+
+impl Drop for CaseDir {
+    fn drop(&mut self) {
+        cleanup(&self.0);
+    }
+}
+
+static CASE_NO: AtomicU64 = AtomicU64::new(0);
+
+// ------------------------------------------------------------------------------------------------
+// comparison
+
+fn show_bytes(b: &[u8]) -> String {
+    let head: Vec<String> = b.iter().take(48).map(|x| format!("{x:02x}")).collect();
+    format!("[{}{}] ({} bytes)", head.join(" "), if b.len() > 48 { " …" } else { "" }, b.len())
+}
+
+fn first_diff(a: &[u8], b: &[u8]) -> usize {
+    a.iter().zip(b.iter()).position(|(x, y)| x != y).unwrap_or(a.len().min(b.len()))
+}
+
+fn compare_step(i: usize, step: &Step, want: &Obs, got: &Obs, drv: &str) -> Option<(String, String)> {
+    let op = step.name();
+    let head = format!("step #{i} {step:?} on the {drv} driver");
+    // shape of a known finding: a vectored read whose iovecs cover only the initialised parts
+    let known_shape = |n: &Res, m: &Res| {
+        Some((
+            format!("C08/vectored-read/reads-only-into-initialised-part/{drv}"),
+            format!("{head}: the OS call gives {n:?} using the capacity of the members; compio gives {m:?}, exactly what the OS answers for iovecs over the initialised parts only"),
+        ))
+    };
+    if let (Obs::OpAlt { main, alt_res, alt_bufs }, Obs::Op { res: m, bufs: gb, .. }) = (want, got) {
+        if let Obs::Op { res: n, bufs: wb, .. } = &**main {
+            if (!res_eq(n, m) || wb != gb) && res_eq(alt_res, m) && alt_bufs == gb {
+                return known_shape(n, m);
+            }
+        }
+    }
+    if let (Step::PipeReadV { bufs, .. }, Obs::Op { res: Ok(n), bufs: wb, .. }, Obs::Op { res: Ok(m), bufs: gb, .. }) = (step, want, got) {
+        let before: Vec<BufObs> = mk_members(bufs).iter().map(obs_vec).collect();
+        // the delivered bytes sit at the start of the capacity regions, in member order
+        let mut data = vec![];
+        let mut rem = *n as usize;
+        for b in wb {
+            let k = b.cap.len().min(rem);
+            data.extend_from_slice(&b.cap[..k]);
+            rem -= k;
+        }
+        let (alt_n, alt) = after_readv_init_only(&before, &data);
+        if (wb != gb || n != m) && *m as usize == alt_n && *gb == alt {
+            return known_shape(&Ok(*n), &Ok(*m));
+        }
+    }
+    let want = want.main();
+    match (want, got) {
+        (Obs::Skip(a), Obs::Skip(b)) if a == b => None,
+        (Obs::Op { res: r1, bufs: b1, meta: m1, data: d1 }, Obs::Op { res: r2, bufs: b2, meta: m2, data: d2 }) => {
+            if !res_eq(r1, r2) {
+                // the kernel checks "negative offset" at a different point in the system-call path and in
+                // the io_uring path, so an operation that is invalid for a second reason too (wrong open
+                // mode, directory, ...) may report either errno: both must fail, the errno is not compared
+                let negative = step_pos(step).map(|p| p >= 1 << 63 && p != u64::MAX).unwrap_or(false);
+                if negative && r1.is_err() && r2.is_err() {
+                    return None;
+                }
+                // a zero-length read of a *directory* handle: read(2)/pread(2) reach the directory's read
+                // method (EISDIR), io_uring's iterator loop transfers nothing and reports 0 — kernel, not compio
+                if let (Err(e), Ok(0)) = (r1, r2) {
+                    let zero = b1.iter().all(|b| b.cap.is_empty()) || matches!(step, Step::ReadAt { buf, .. } if geom(buf).rlen == 0);
+                    if e.errno == Some(libc::EISDIR) && zero && matches!(step, Step::ReadAt { .. } | Step::ReadVAt { .. }) {
+                        return None;
+                    }
+                }
+                let what = match (step, r1, r2) {
+                    (_, Err(_), Ok(_)) if step_pos(step) == Some(u64::MAX) => "offset-u64max-accepted",
+                    _ => "result",
+                };
+                let group = match what {
+                    "reads-only-into-initialised-part" => "vectored-read",
+                    "offset-u64max-accepted" => "positional",
+                    _ => op,
+                };
+                return Some((format!("C08/{group}/{what}/{drv}"), format!("{head}: the OS call gives {r1:?}, compio gives {r2:?}")));
+            }
+            if b1.len() != b2.len() {
+                return Some((format!("C08/{op}/buf-count/{drv}"), format!("{head}: {} buffers expected, {} returned", b1.len(), b2.len())));
+            }
+            for (k, (x, y)) in b1.iter().zip(b2.iter()).enumerate() {
+                if x.len != y.len {
+                    return Some((
+                        format!("C08/{op}/buf-len/{drv}"),
+                        format!("{head}: result {r1:?}; buffer #{k} should have length {} (capacity {}), compio returned length {}", x.len, x.cap.len(), y.len),
+                    ));
+                }
+                if x.cap != y.cap {
+                    let at = first_diff(&x.cap, &y.cap);
+                    return Some((
+                        format!("C08/{op}/buf-content/{drv}"),
+                        format!(
+                            "{head}: result {r1:?}; buffer #{k} capacity region differs at byte {at}: expected {} got {}",
+                            show_bytes(&x.cap[at..]),
+                            show_bytes(&y.cap[at.min(y.cap.len())..])
+                        ),
+                    ));
+                }
+            }
+            if m1 != m2 {
+                return Some((format!("C08/{op}/metadata/{drv}"), format!("{head}: std reports {m1:?}, compio reports {m2:?}")));
+            }
+            if d1 != d2 {
+                return Some((
+                    format!("C08/{op}/data/{drv}"),
+                    format!("{head}: std read {}, compio read {}", show_bytes(d1.as_deref().unwrap_or(&[])), show_bytes(d2.as_deref().unwrap_or(&[]))),
+                ));
+            }
+            None
+        }
+        _ => Some((format!("C08/{op}/applicability/{drv}"), format!("{head}: reference {want:?}, compio {got:?}"))),
+    }
+}
+
+fn step_pos(step: &Step) -> Option<u64> {
+    match step {
+        Step::ReadAt { pos, .. } | Step::WriteAt { pos, .. } | Step::ReadVAt { pos, .. } | Step::WriteVAt { pos, .. } => Some(pos.value()),
+        _ => None,
+    }
+}
+
+fn compare_trees(want: &BTreeMap<String, Entry>, got: &BTreeMap<String, Entry>, drv: &str) -> Option<(String, String)> {
+    let wn: Vec<&String> = want.keys().collect();
+    let gn: Vec<&String> = got.keys().collect();
+    if wn != gn {
+        return Some((format!("C08/final-state/entries/{drv}"), format!("reference tree has {wn:?}, {drv} tree has {gn:?}")));
+    }
+    for (name, w) in want {
+        let g = &got[name];
+        let aspect = if w.ftype != g.ftype {
+            "type"
+        } else if w.mode != g.mode {
+            "permissions"
+        } else if w.nlink != g.nlink {
+            "link-count"
+        } else if w.len != g.len {
+            "length"
+        } else if w.content != g.content {
+            "content"
+        } else {
+            continue;
+        };
+        let extra = if aspect == "content" {
+            let at = first_diff(&w.content, &g.content);
+            format!(" (first difference at byte {at}: expected {} got {})", show_bytes(&w.content[at..]), show_bytes(&g.content[at.min(g.content.len())..]))
+        } else {
+            String::new()
+        };
+        return Some((
+            format!("C08/final-state/{aspect}/{drv}"),
+            format!(
+                "'{name}': reference {{type {}, mode {:o}, nlink {}, len {}}} vs {drv} {{type {}, mode {:o}, nlink {}, len {}}}{extra}",
+                w.ftype, w.mode, w.nlink, w.len, g.ftype, g.mode, g.nlink, g.len
+            ),
+        ));
+    }
+    None
+}
+
+// ------------------------------------------------------------------------------------------------
+// interpreter
+
+static KNOWN: std::sync::OnceLock<Known> = std::sync::OnceLock::new();
+
+fn run_case(original: &Prog) -> Outcome {
+    let (prog, replaced) = original.effective(KNOWN.get().copied().unwrap_or_default());
+    let prog = &prog;
+    let n = CASE_NO.fetch_add(1, Ordering::Relaxed);
+    let base = std::env::temp_dir().join(format!("verif-c08-{}-{n}", std::process::id()));
+    let guard = CaseDir(base.clone());
+    for d in ["ref", "iour", "poll"] {
+        if let Err(e) = std::fs::create_dir_all(base.join(d)) {
+            return Outcome::inconclusive(format!("cannot create case directory: {e}"));
+        }
+    }
+    let mut tolerated = 0usize;
+    let (want, facts) = refexec::run_ref(prog, &base.join("ref"));
+    let mut want_tree = BTreeMap::new();
+    if let Err(e) = walk(&base.join("ref"), Path::new(""), &mut want_tree) {
+        return Outcome::inconclusive(format!("walking the reference tree: {e}"));
+    }
+    for (drv, ty) in [("iour", DriverType::IoUring), ("poll", DriverType::Poll)] {
+        if prog.poll_only && drv == "iour" {
+            continue;
+        }
+        let got = match cexec::run_compio(prog, &base.join(drv), ty) {
+            Ok(g) => g,
+            Err(e) => return Outcome::inconclusive(e),
+        };
+        for (i, (step, (w, g))) in prog.steps.iter().zip(want.iter().zip(got.iter())).enumerate() {
+            if *g == Obs::Hung {
+                return Outcome::inconclusive(format!("watchdog: {} on {drv} did not finish", step.name()));
+            }
+            if let Some((sig, detail)) = compare_step(i, step, w, g, drv) {
+                let known = KNOWN.get().copied().unwrap_or_default();
+                if known.readv_spare && !original.keep_known && matches!(step, Step::ReadVAt { .. }) && sig == "C08/vectored-read/reads-only-into-initialised-part/iour" {
+                    tolerated += 1;
+                    continue;
+                }
+                return Outcome::violation(sig, detail);
+            }
+        }
+        if got.len() != want.len() {
+            return Outcome::inconclusive(format!("{drv}: executed {} of {} steps", got.len(), want.len()));
+        }
+        let mut tree = BTreeMap::new();
+        if let Err(e) = walk(&base.join(drv), Path::new(""), &mut tree) {
+            return Outcome::inconclusive(format!("walking the {drv} tree: {e}"));
+        }
+        if let Some((sig, detail)) = compare_trees(&want_tree, &tree, drv) {
+            return Outcome::violation(sig, detail);
+        }
+    }
+    drop(guard);
+
+    // ---- labels and the non-triviality rule
+    let mut labels = facts.labels.clone();
+    for (step, o) in prog.steps.iter().zip(want.iter()) {
+        match o.main() {
+            Obs::Skip(why) => labels.push(format!("skip:{why}")),
+            Obs::Op { res, .. } => {
+                labels.push(format!("op:{}", step.name()));
+                if let (Step::ReadAt { buf, .. } | Step::WriteAt { buf, .. } | Step::PipeRead { buf, .. } | Step::PipeWrite { buf, .. }, Ok(_)) = (step, res) {
+                    let g = geom(buf);
+                    let shape = match buf.kind {
+                        BufKind::Vec if g.root.len == 0 && g.rlen > 0 => "vec-len0",
+                        BufKind::Vec if g.root.len == g.rlen => "vec-len=cap",
+                        BufKind::Vec => "vec-len<cap",
+                        BufKind::Array => "array",
+                        BufKind::ArrayVec => "arrayvec",
+                        BufKind::Slice { .. } => "slice",
+                        BufKind::Uninit => "uninit",
+                    };
+                    labels.push(format!("shape:{shape}"));
+                    if g.rlen == 0 {
+                        labels.push("shape:zero-capacity-region".into());
+                    }
+                }
+                if let (Step::ReadAt { pos, .. } | Step::WriteAt { pos, .. } | Step::ReadVAt { pos, .. } | Step::WriteVAt { pos, .. }, _) = (step, res) {
+                    labels.push(
+                        match pos {
+                            Pos::At(_) => "pos:near",
+                            Pos::Far(_) => "pos:far",
+                            Pos::Edge(_) => "pos:edge",
+                        }
+                        .into(),
+                    );
+                }
+            }
+            Obs::Hung | Obs::OpAlt { .. } => {}
+        }
+    }
+    if facts.read_hit {
+        labels.push("read-returns-written-bytes".into());
+    }
+    if replaced > 0 {
+        labels.push("excluded-known-shape-replaced".into());
+    }
+    if tolerated > 0 {
+        labels.push("known-finding-tolerated:file-readv-spare-capacity-on-iour".into());
+    }
+    labels.sort();
+    labels.dedup();
+    let nontrivial = facts.read_hit || facts.vectored_span || facts.beyond_eof;
+    Outcome::pass_owned(nontrivial, labels)
+}
+
+// ------------------------------------------------------------------------------------------------
+// generators
+
+fn size_strategy() -> impl Strategy<Value = u16> + Clone {
+    prop_oneof![3 => Just(0u16), 8 => 1u16..=48, 1 => 3000u16..=9000]
+}
+
+fn kind_strategy() -> impl Strategy<Value = BufKind> + Clone {
+    prop_oneof![
+        5 => Just(BufKind::Vec),
+        1 => Just(BufKind::Array),
+        1 => Just(BufKind::ArrayVec),
+        2 => (any::<u16>(), proptest::option::weighted(0.6, any::<u16>())).prop_map(|(begin, end)| BufKind::Slice { begin, end }),
+        2 => Just(BufKind::Uninit),
+    ]
+}
+
+fn buf_strategy() -> impl Strategy<Value = BufSpec> + Clone {
+    (kind_strategy(), size_strategy(), size_strategy(), any::<u8>()).prop_map(|(kind, len, spare, seed)| BufSpec { kind, len, spare, seed })
+}
+
+fn vbuf_strategy() -> impl Strategy<Value = VSpec> + Clone {
+    let member = (prop_oneof![2 => Just(0u8), 5 => 1u8..=20], prop_oneof![2 => Just(0u8), 5 => 1u8..=20]);
+    (prop_oneof![3 => Just(VCont::VecOfVec), 1 => Just(VCont::Arr2), 1 => Just(VCont::Arr3)], vec(member, 0..=5), any::<u8>())
+        .prop_map(|(cont, members, seed)| VSpec { cont, members, seed })
+}
+
+fn pos_strategy() -> impl Strategy<Value = Pos> + Clone {
+    prop_oneof![
+        3 => Just(Pos::At(0)),
+        6 => (0u16..=120).prop_map(Pos::At),
+        2 => (0u16..=5000).prop_map(Pos::Far),
+        1 => (0u8..EDGES.len() as u8).prop_map(Pos::Edge),
+    ]
+}
+
+fn path_strategy() -> impl Strategy<Value = u8> + Clone {
+    prop_oneof![4 => 0u8..3, 3 => 0u8..PATHS.len() as u8]
+}
+
+fn opts_strategy() -> impl Strategy<Value = Opts> + Clone {
+    (
+        prop_oneof![6 => Just(Via::Options), 1 => Just(Via::FileOpen), 2 => Just(Via::FileCreate)],
+        (proptest::bool::weighted(0.75), proptest::bool::weighted(0.75), proptest::bool::weighted(0.6), proptest::bool::weighted(0.2), proptest::bool::weighted(0.15)),
+        prop_oneof![8 => Just(Custom::None), 2 => Just(Custom::Append), 1 => Just(Custom::NoFollow), 1 => Just(Custom::Directory)],
+        proptest::option::weighted(0.3, prop_oneof![Just(0o600u16), Just(0o644), Just(0o444), Just(0o000), Just(0o755), Just(0o777)]),
+    )
+        .prop_map(|(via, (read, write, create, truncate, create_new), custom, mode)| Opts { via, read, write, create, truncate, create_new, custom, mode })
+}
+
+fn mode_strategy() -> impl Strategy<Value = u16> + Clone {
+    prop_oneof![Just(0o600u16), Just(0o644), Just(0o444), Just(0o000), Just(0o755), Just(0o777), Just(0o4755), Just(0o1777)]
+}
+
+fn step_strategy() -> impl Strategy<Value = Step> + Clone {
+    // nested unions of <= 10 arms each (larger unions are boxed by proptest and lose `Send`)
+    let h = any::<u16>();
+    let file_ops = prop_oneof![
+        12 => (path_strategy(), opts_strategy()).prop_map(|(path, opts)| Step::Open { path, opts }),
+        3 => h.prop_map(|h| Step::Close { h }),
+        10 => (h, buf_strategy(), pos_strategy()).prop_map(|(h, buf, pos)| Step::ReadAt { h, buf, pos }),
+        12 => (h, buf_strategy(), pos_strategy()).prop_map(|(h, buf, pos)| Step::WriteAt { h, buf, pos }),
+        7 => (h, vbuf_strategy(), pos_strategy()).prop_map(|(h, bufs, pos)| Step::ReadVAt { h, bufs, pos }),
+        7 => (h, vbuf_strategy(), pos_strategy()).prop_map(|(h, bufs, pos)| Step::WriteVAt { h, bufs, pos }),
+        4 => (h, pos_strategy()).prop_map(|(h, size)| Step::SetLen { h, size }),
+        1 => (h, any::<bool>()).prop_map(|(h, data)| Step::Sync { h, data }),
+        3 => h.prop_map(|h| Step::Meta { h }),
+        1 => (h, mode_strategy()).prop_map(|(h, mode)| Step::SetPerm { h, mode }),
+    ];
+    let path_ops = prop_oneof![
+        3 => (path_strategy(), any::<bool>()).prop_map(|(path, follow)| Step::PathMeta { path, follow }),
+        1 => (path_strategy(), mode_strategy()).prop_map(|(path, mode)| Step::PathSetPerm { path, mode }),
+        3 => path_strategy().prop_map(|path| Step::CreateDir { path }),
+        2 => path_strategy().prop_map(|path| Step::CreateDirAll { path }),
+        2 => path_strategy().prop_map(|path| Step::RemoveFile { path }),
+        1 => path_strategy().prop_map(|path| Step::RemoveDir { path }),
+        2 => (path_strategy(), path_strategy()).prop_map(|(from, to)| Step::Rename { from, to }),
+        2 => (path_strategy(), path_strategy()).prop_map(|(from, to)| Step::HardLink { from, to }),
+        2 => (0u8..TARGETS.len() as u8, path_strategy()).prop_map(|(target, link)| Step::Symlink { target, link }),
+    ];
+    let misc_ops = prop_oneof![
+        3 => path_strategy().prop_map(|path| Step::FsRead { path }),
+        3 => (path_strategy(), buf_strategy()).prop_map(|(path, buf)| Step::FsWrite { path, buf }),
+        3 => Just(Step::PipeNew),
+        8 => (h, buf_strategy()).prop_map(|(p, buf)| Step::PipeWrite { p, buf }),
+        5 => (h, vbuf_strategy()).prop_map(|(p, bufs)| Step::PipeWriteV { p, bufs }),
+        7 => (h, buf_strategy()).prop_map(|(p, buf)| Step::PipeRead { p, buf }),
+        5 => (h, vbuf_strategy()).prop_map(|(p, bufs)| Step::PipeReadV { p, bufs }),
+        1 => h.prop_map(|p| Step::PipeCloseTx { p }),
+        1 => h.prop_map(|p| Step::PipeCloseRx { p }),
+    ];
+    prop_oneof![60 => file_ops, 18 => path_ops, 38 => misc_ops]
+}
+
+fn rw_create(path: u8) -> Step {
+    Step::Open { path, opts: Opts { via: Via::Options, read: true, write: true, create: true, truncate: false, create_new: false, custom: Custom::None, mode: None } }
+}
+
+fn case_strategy() -> impl Strategy<Value = Prog> + Clone {
+    // a short prologue (0-2 files opened read+write+create, optionally a pipe) makes the handle tables
+    // non-empty early; the body is unconstrained
+    (proptest::bool::weighted(0.15), 0usize..=2, proptest::bool::weighted(0.5), vec(step_strategy(), 1..=22)).prop_map(|(small_queue, nopen, pipe, body)| {
+        let mut steps = vec![];
+        for i in 0..nopen {
+            steps.push(rw_create(i as u8));
+        }
+        if pipe {
+            steps.push(Step::PipeNew);
+        }
+        steps.extend(body);
+        Prog { small_queue, keep_known: false, poll_only: false, steps }
+    })
+}
+
+fn vecbuf(len: u16, spare: u16, seed: u8) -> BufSpec {
+    BufSpec { kind: BufKind::Vec, len, spare, seed }
+}
+
+fn main() {
+    let mut s = Session::new();
+    let mut p = Part::new(
+        "C08",
+        "programs",
+        "case = program of 1-25 steps over one temp directory (12 relative names, <=4 open files, <=2 anonymous pipes): open/create with generated \
+         OpenOptions (read/write/create/truncate/create_new, O_APPEND/O_NOFOLLOW/O_DIRECTORY, mode; File::open/create), close, read_at/write_at with \
+         buffer shapes Vec len<cap / len=cap / len=0, [u8;24], ArrayVec, Slice(begin..end|begin..), Uninit (spare capacity only), sizes 0..48 and 3-9 KiB, \
+         read_vectored_at/write_vectored_at over Vec<Vec<u8>>/[Vec<u8>;2]/[Vec<u8>;3] with 0-5 members incl. empty ones, offsets 0..120, 65000+x and \
+         i64::MAX/2^63/u64::MAX-1/u64::MAX, set_len, sync_all/sync_data, metadata, set_permissions (handle and path), create_dir(_all), remove_file/dir, \
+         rename, hard_link, symlink, fs::read, fs::write, pipe::anonymous read/write/read_vectored/write_vectored/close of either end (only steps that cannot block). \
+         Each program runs on the reference interpreter (std::fs+libc), on a compio runtime with io_uring and on one with the polling driver. \
+         Non-trivial = a read returned bytes written earlier in the program, or a vectored operation spanned >= 2 non-empty members, or a \
+         positional operation was at/beyond EOF; distinct = distinct serialised program.",
+    );
+    p.quick_cases = 2000;
+    p.thorough_cases = 40_000;
+    p.threads = 8;
+    p.max_shrink_iters = 600;
+    p.assumptions = vec![
+        "pipe steps that would block (read on an empty pipe with a live writer, write beyond 4 KiB / 8 unread writes) are skipped by construction",
+        "sequential (cursor based) I/O exists only for pipes: compio-fs File is positional by design and the polling driver cannot register regular files for readiness",
+        "timestamps, inode numbers, directory sizes and error text are not compared; errors are compared by raw errno",
+    ];
+    let golden = |small_queue: bool, steps: Vec<Step>| Prog { small_queue, keep_known: false, poll_only: false, steps };
+    let finding = |poll_only: bool, steps: Vec<Step>| Prog { small_queue: false, keep_known: true, poll_only, steps };
+    let uninit = |len, spare, seed| BufSpec { kind: BufKind::Uninit, len, spare, seed };
+    p.regressions = vec![
+        (
+            "write-then-read-all-shapes",
+            golden(
+                false,
+                vec![
+                    rw_create(0),
+                    Step::WriteAt { h: 0, buf: vecbuf(20, 5, 3), pos: Pos::At(0) },
+                    Step::ReadAt { h: 0, buf: vecbuf(4, 10, 9), pos: Pos::At(2) },
+                    Step::ReadAt { h: 0, buf: uninit(4, 10, 9), pos: Pos::At(2) },
+                    Step::ReadAt { h: 0, buf: BufSpec { kind: BufKind::Slice { begin: 40000, end: None }, len: 6, spare: 10, seed: 9 }, pos: Pos::At(5) },
+                    Step::ReadAt { h: 0, buf: BufSpec { kind: BufKind::Array, len: 0, spare: 0, seed: 1 }, pos: Pos::At(0) },
+                    Step::ReadVAt { h: 0, bufs: VSpec { cont: VCont::VecOfVec, members: vec![(4, 0), (0, 0), (8, 0)], seed: 7 }, pos: Pos::At(1) },
+                    Step::ReadVAt { h: 0, bufs: VSpec { cont: VCont::Arr2, members: vec![(3, 0), (9, 0)], seed: 7 }, pos: Pos::At(0) },
+                    Step::ReadAt { h: 0, buf: vecbuf(0, 8, 0), pos: Pos::Far(10) },
+                    Step::WriteVAt { h: 0, bufs: VSpec { cont: VCont::Arr3, members: vec![(5, 2), (0, 0), (7, 0)], seed: 11 }, pos: Pos::Far(3) },
+                    Step::SetLen { h: 0, size: Pos::At(70) },
+                    Step::Meta { h: 0 },
+                    Step::FsRead { path: 0 },
+                ],
+            ),
+        ),
+        (
+            "pipe-roundtrip",
+            golden(
+                true,
+                vec![
+                    Step::PipeNew,
+                    Step::PipeWriteV { p: 0, bufs: VSpec { cont: VCont::Arr3, members: vec![(5, 2), (0, 0), (7, 0)], seed: 11 } },
+                    Step::PipeReadV { p: 0, bufs: VSpec { cont: VCont::VecOfVec, members: vec![(3, 0), (5, 0), (20, 0)], seed: 2 } },
+                    Step::PipeWrite { p: 0, buf: vecbuf(9, 0, 4) },
+                    Step::PipeCloseTx { p: 0 },
+                    Step::PipeRead { p: 0, buf: uninit(3, 30, 5) },
+                    Step::PipeRead { p: 0, buf: vecbuf(0, 8, 0) },
+                ],
+            ),
+        ),
+        // ---- reproduction cases of the findings (see notes/C08.md); they pass once the defects are repaired
+        (
+            "finding-readv-spare-capacity-iour",
+            finding(
+                false,
+                vec![
+                    rw_create(0),
+                    Step::WriteAt { h: 0, buf: vecbuf(20, 0, 3), pos: Pos::At(0) },
+                    Step::ReadVAt { h: 0, bufs: VSpec { cont: VCont::VecOfVec, members: vec![(0, 4), (2, 6)], seed: 7 }, pos: Pos::At(1) },
+                ],
+            ),
+        ),
+        (
+            "finding-pipe-readv-spare-capacity-poll",
+            finding(
+                true,
+                vec![
+                    Step::PipeNew,
+                    Step::PipeWrite { p: 0, buf: vecbuf(12, 0, 4) },
+                    Step::PipeReadV { p: 0, bufs: VSpec { cont: VCont::Arr2, members: vec![(1, 4), (0, 20)], seed: 2 } },
+                ],
+            ),
+        ),
+        (
+            "finding-offset-u64max-iour",
+            finding(
+                false,
+                vec![
+                    rw_create(0),
+                    Step::WriteAt { h: 0, buf: vecbuf(10, 0, 3), pos: Pos::At(0) },
+                    Step::ReadAt { h: 0, buf: vecbuf(0, 8, 0), pos: Pos::Edge(3) },
+                ],
+            ),
+        ),
+    ];
+    let ks = s.known_signatures("C08");
+    let _ = KNOWN.set(Known {
+        readv_spare: ks.iter().any(|k| k.contains("/reads-only-into-initialised-part/")),
+        off_max: ks.iter().any(|k| k.contains("/offset-u64max-accepted/")),
+    });
+    s.run_part(p, case_strategy(), run_case);
+    s.finish();
+}
